@@ -56,7 +56,11 @@ func (v *Verifier) buildQuery(o *Obligation, models bool) (string, []*Term) {
 	if !o.Cover {
 		// universally quantified parts of the goal are skolemised here, so that the
 		// instantiation passes below see the ground terms of the counterexample
-		asserts = append(asserts, Not(skolemizeGoal(o.Goal)))
+		sg := skolemizeGoal(o.Goal)
+		asserts = append(asserts, Not(sg))
+		// existential parts of the goal: their negations are universal facts of the query; stating them
+		// separately (they are implied by the negated goal) lets the instantiation pass supply witnesses
+		asserts = append(asserts, negatedExistentials(sg)...)
 	}
 	// instantiate used lemmas (two rounds: instances may enable further matches)
 	var uses []string
@@ -432,6 +436,26 @@ func skolemizeGoal(g *Term) *Term {
 		return skolemizeGoal(Subst(g.Args[0], m))
 	}
 	return g
+}
+
+// negatedExistentials: universal facts implied by the negation of goal g.
+func negatedExistentials(g *Term) []*Term {
+	switch g.Op {
+	case "=>":
+		return negatedExistentials(g.Args[1])
+	case "or":
+		var out []*Term
+		for _, a := range g.Args {
+			out = append(out, negatedExistentials(a)...)
+		}
+		return out
+	case "exists":
+		if g.hasB {
+			return nil
+		}
+		return []*Term{Forall(g.Bound, Not(g.Args[0]))}
+	}
+	return nil
 }
 
 // skolemizeHyp: a lemma instance (forall k. H(k)) ==> C is equivalent to (exists k. !H(k)) || C; naming the
